@@ -93,7 +93,7 @@ theorem doOpen_cfg (s : St) :
   simp only [doOpen]
   split
   · exact ⟨rfl, rfl, rfl, rfl, rfl, rfl⟩
-  · cases hk : s.kind <;> cases s.openPlan.headD .ok <;> exact ⟨by simp [hk], rfl, rfl, rfl, rfl, rfl⟩
+  · cases hk : s.kind <;> cases s.openPlan.headD .ok <;> exact ⟨by simp, rfl, rfl, rfl, rfl, rfl⟩
 
 theorem doOpen_flag (s : St) :
     (doOpen s).1.isOpen = (s.isOpen || decide ((doOpen s).2 = .unit)) := by
@@ -115,6 +115,11 @@ theorem doClose_tot (s : St) : tot (doClose s).1 = tot s := by
   simp only [doClose]
   split <;> rfl
 
+theorem doOpen_closed_out (s : St) (h : s.isOpen = false) :
+    (doOpen s).2 = .unit ∨ (doOpen s).2 = .exc .timeout ∨ (doOpen s).2 = .exc .osError := by
+  simp only [doOpen, h, Bool.false_eq_true, if_false]
+  cases s.kind <;> cases s.openPlan.headD .ok <;> simp
+
 theorem doWrite_spec (s : St) (d : Bytes) :
     tot (doWrite s d).1 = tot s ∧ (doWrite s d).1.kind = s.kind ∧ (doWrite s d).1.minP = s.minP ∧
     (doWrite s d).1.maxP = s.maxP ∧ (doWrite s d).1.isOpen = s.isOpen ∧ (doWrite s d).1.dev = s.dev ∧
@@ -122,7 +127,7 @@ theorem doWrite_spec (s : St) (d : Bytes) :
   simp only [doWrite]
   split
   · exact ⟨rfl, rfl, rfl, rfl, rfl, rfl, rfl, rfl, rfl⟩
-  · cases hk : s.kind <;> exact ⟨rfl, by simp [hk], rfl, rfl, rfl, rfl, rfl, rfl, rfl⟩
+  · cases hk : s.kind <;> exact ⟨rfl, by simp, rfl, rfl, rfl, rfl, rfl, rfl, rfl⟩
 
 theorem ReadSpec.tot_eq {s : St} {r : St × Out} (h : ReadSpec s r) (hn : r.2 ≠ .exc .runtime) : tot r.1 = tot s := by
   obtain ⟨s', o⟩ := r
